@@ -155,7 +155,7 @@ def main(argv=None):
     for f in failures:
         k = next((k for k in kf if finding_matches(k, f)), None)
         if k is not None:
-            key = (k['class'], k['mode'])
+            key = (k['class'], k['mode'], k.get('input_regex'), k['what'])      # one line per listed finding
             if key not in reported:
                 reported.add(key)
                 lines.append('KNOWN-FINDING: property=%s %s' % (pid, k['what']))
